@@ -154,7 +154,7 @@ def _merge(acc, sh):
     for k, v in sh.get("viol_classes", {}).items():
         acc["viol_classes"][k] = acc["viol_classes"].get(k, 0) + v
     for n in sh["notes"]:
-        if n not in acc["notes"]:
+        if n not in acc["notes"] and len(acc["notes"]) < 25:
             acc["notes"].append(n)
     acc["violations"].extend(sh["violations"])
     acc["samples"].extend(sh["samples"])
@@ -324,7 +324,7 @@ def _run_check(prop, tier, seed, nproc, only, budget, write, root, tree):
             total["known_hits"][k] = total["known_hits"].get(k, 0) + v
         for k, v in a["viol_classes"].items():
             total["viol_classes"][k] = total["viol_classes"].get(k, 0) + v
-        total["notes"].extend(n for n in a["notes"] if n not in total["notes"])
+        total["notes"].extend(n for n in a["notes"] if n not in total["notes"] and len(total["notes"]) < 60)
         total["violations"].extend(a["violations"])
         space_rows.append(dict(name=s.name, mode=s.mode, size=s.size, explored=a["explored"],
                                exhaustive=a["explored"] == s.size, evaluations=a["evaluations"],
